@@ -152,13 +152,16 @@ def output_algorithm(out: OutputBuffer, alg_db: Dict[str, Dict[str, List[List[Op
             texts.append(('info', ''))
     else:
         texts.append(('warn', 'unknown algorithm'))
-        unknown_algs.append(alg_name)
+        unknown_algs.append(''.join(c if c.isprintable() else '?' for c in alg_name))
 
     # For kex GSS algorithms, now that we already did the database lookup (above), restore the original algorithm name so its reported properly in the output.
     if alg_name != alg_name_original:
         alg_name = alg_name_original
 
     alg_name = alg_name_with_size if alg_name_with_size is not None else alg_name
+
+    # The name (and a certificate's CA type) comes from the peer: anything that is not printable (line breaks, escape sequences) is shown as '?', so that a peer cannot forge report lines or drive the terminal.
+    alg_name = ''.join(c if c.isprintable() else '?' for c in alg_name)
     first = True
     use_good_for_all = False
     for level, text in texts:
